@@ -44,7 +44,7 @@ def plans(pid, tier):
     th = tier == "thorough"
     P = []
     if pid == "C01":
-        P.append(dict(tag="fat", groups=G7, shapes="{Square, Kite, Circle, Trimer(5, 15), Trimer(2, 5)}",
+        P.append(dict(tag="fat", groups=G7, shapes="{Square, Quad, Circle, Trimer(5, 15), Trimer(2, 5)}",
                       ax=[16, 20, 28, 40] + ([24, 34] if th else []),
                       b=[(0, 14), (0, 20), (0, 28), (9, 12), (12, 16), (6, 8)] + ([(0, 10), (15, 20), (5, 12)] if th else []),
                       site=[-4, -1, 2] + ([-3, 0, 1, 3, 4] if th else []), orient=[1, 5] + ([2, 6, 13] if th else []),
@@ -294,9 +294,9 @@ def pairs_check(ctx):
         return crystal_replay_file(ctx)
     th = tier == "thorough"
     plans_ = [
-        dict(tag="poly", shapes="PolyShapes", orient=[1, 2, 5, 6, 13] + ([3, 7, 9, 14, 16] if th else []),
+        dict(tag="poly", shapes="PolyShapes", orient=[1, 2, 3, 5, 6, 13] + ([4, 7, 9, 14, 16] if th else []),
              mirror=[False, True], off=list(range(-10, 11, 2)) if not th else list(range(-10, 11)), G=4),
-        dict(tag="disc", shapes="DiscShapes", orient=[1, 2, 5, 13] + ([6, 9, 15] if th else []),
+        dict(tag="disc", shapes="DiscShapes", orient=[1, 2, 3, 5, 13] + ([6, 9, 15] if th else []),
              mirror=[False, True], off=list(range(-12, 13, 3)) if not th else list(range(-14, 15, 2)), G=2),
     ]
     states = transitions = emitted = 0
